@@ -265,7 +265,23 @@ def grammar_view(grammar, probe) -> dict:
         "required": sorted(grammar.required_names),
         "defaults": dict(grammar.defaults),
         "to_namespaced": dict(grammar.to_namespaced),
+        "from_namespaced": dict(grammar.from_namespaced),
     }
+    # what the grammar types document beyond names and types: JSON and Pydantic grammars have a schema and
+    # element descriptions (set_descriptions); simple grammars keep the bare types
+    kind = type(grammar).__name__
+    if kind == "JSONGrammar":
+        view["schema"] = grammar.schema
+        view["descriptions"] = {n: grammar.schema.get("properties", {}).get(n, {}).get("description") for n in grammar}
+    elif kind == "PydanticGrammar":
+        # (PydanticGrammar.schema does not rebuild a model whose rebuild is pending - a validation does - and
+        # pydantic cannot generate a schema for bare ndarray fields: the outcome, whatever it is, must be the same)
+        _accepts(grammar, {n: np.array([1.0]) for n in grammar})
+        view["schema"] = list(_call(lambda: grammar.schema))
+        view["descriptions"] = {n: grammar[n].description for n in grammar}
+        view["annotations"] = {n: repr(grammar[n].annotation) for n in grammar}
+    else:
+        view["types"] = {n: repr(grammar[n]) for n in grammar}
     if probe is not None:
         full = {k: v for k, v in probe.items() if k in grammar}
         view["accepts_full"] = _accepts(grammar, full)
@@ -448,7 +464,7 @@ def _weighted(kinds):
 
 
 PRE_OPS = ["exec", "exec", "exec_same", "lin_all", "lin_all", "lin", "lin", "defaults", "approx", "scenario",
-           "g_restrict", "g_restrict", "g_update", "g_rename"]
+           "g_restrict", "g_restrict", "g_update", "g_rename", "g_describe", "g_describe"]
 EXTRA_INPUT = "c20_extra"  # optional input added to / renamed in / removed from the input grammar by the g_* steps
 
 
@@ -629,6 +645,14 @@ class Life:
                 grammar.required_names.discard(EXTRA_INPUT)
                 grammar.defaults[EXTRA_INPUT] = np.array([float(op["k"])])
                 self.flags.add("grammar_updated")
+        elif kind == "g_describe":
+            # element descriptions (JSON and Pydantic grammars document them)
+            for grammar, which in ((d.io.input_grammar, "input"), (d.io.output_grammar, "output")):
+                names = list(grammar)
+                if hasattr(grammar, "set_descriptions") and names:
+                    chosen = {names[(op["k"] + j) % len(names)] for j in range(2)}
+                    grammar.set_descriptions({n: f"The {which} {n} (text {op['k']})." for n in chosen})
+                    self.flags.add("grammar_described")
         elif kind == "g_rename":
             grammar = d.io.input_grammar
             if EXTRA_INPUT in grammar:
@@ -1605,7 +1629,7 @@ _CHILD = (
 
 def _item(draw, name: str, args=None):
     rec = R.RECIPES[name]
-    ops = ["exec", "exec", "lin_all", "lin", "defaults", "exec_same", "g_restrict", "g_update"]
+    ops = ["exec", "exec", "lin_all", "lin", "defaults", "exec_same", "g_restrict", "g_update", "g_describe"]
     return {
         "recipe": name,
         "args": args if args is not None else draw(rec.args),
@@ -1789,8 +1813,249 @@ def case_cross(p, ctx):
         shutil.rmtree(tmp, ignore_errors=True)
 
 
+# ======================================================================================
+# grammars pickled alone
+# ======================================================================================
+GRAMMAR_CLASSES = ["JSONGrammar", "PydanticGrammar", "SimpleGrammar", "PydanticGrammar", "JSONGrammar", "SimplerGrammar"]
+_G_NAMES = ["x", "yy", "z_3", "name with space", "w"]
+_G_OPS = ["names", "data", "types", "describe", "describe", "defaults", "optional", "restrict", "rename", "validate", "schema", "namespace"]
+
+
+@st.composite
+def grammar_cases(draw):
+    return {
+        "cls": draw(st.integers(0, len(GRAMMAR_CLASSES) - 1)),
+        "init": draw(st.integers(0, 8)),
+        "ops": draw(st.lists(st.fixed_dictionaries({"op": st.sampled_from(_G_OPS), "k": st.integers(0, 9)}), min_size=1, max_size=6)),
+        "channel": draw(st.sampled_from(["dumps", "dumps", "file", "fork"])),
+        "protocol": draw(st.sampled_from([2, 4, 5])),
+        "second_ops": draw(st.lists(st.fixed_dictionaries({"op": st.sampled_from(_G_OPS), "k": st.integers(0, 9)}), max_size=3)),
+    }
+
+
+def _grammar_apply(grammar, op, flags: set) -> None:
+    """One edit of a grammar through its public API (index-modulo arguments: always valid)."""
+    k = op["k"]
+    kind = op["op"]
+    present = list(grammar)
+    if kind == "names":
+        grammar.update_from_names([_G_NAMES[k % 5], _G_NAMES[(k + 2) % 5]])
+    elif kind == "data":
+        grammar.update_from_data({_G_NAMES[k % 5]: np.arange(1.0, 2.0 + k % 3), _G_NAMES[(k + 1) % 5]: float(k)})
+    elif kind == "types":
+        grammar.update_from_types({_G_NAMES[k % 5]: [int, float, str, np.ndarray][k % 4]})
+    elif not present:
+        return
+    elif kind == "describe":
+        if hasattr(grammar, "set_descriptions"):
+            grammar.set_descriptions({present[k % len(present)]: f"Description number {k}.", present[(k + 1) % len(present)]: "Another one."})
+            flags.add("described")
+    elif kind == "defaults":
+        name = present[k % len(present)]
+        value = np.full(1 + k % 2, 0.5 * k)
+        if _accepts(grammar, {**{n: v for n, v in grammar.defaults.items()}, name: value}) or True:
+            grammar.defaults[name] = value
+            flags.add("defaults")
+    elif kind == "optional":
+        grammar.required_names.discard(present[k % len(present)])
+        flags.add("optional")
+    elif kind == "restrict":
+        if len(present) >= 2:
+            removed = present[k % len(present)]
+            grammar.restrict_to([n for n in present if n != removed])
+            flags.add("restricted")
+    elif kind == "rename":
+        new = f"renamed_{k}"
+        if new not in grammar:
+            grammar.rename_element(present[k % len(present)], new)
+            flags.add("renamed")
+    elif kind == "validate":
+        _accepts(grammar, {n: np.array([1.0]) for n in present})  # compiles the validator / fills the schema cache
+        flags.add("validated")
+    elif kind == "schema":
+        if hasattr(grammar, "schema"):
+            grammar.schema  # noqa: B018 - fills the cache
+            flags.add("schema_read")
+    elif kind == "namespace":
+        name = present[k % len(present)]
+        if ":" not in name:
+            grammar.add_namespace(name, f"ns{k % 2}")
+            flags.add("namespaced")
+
+
+def _grammar_probe(grammar) -> dict:
+    return {n: np.array([1.0]) for n in grammar}
+
+
+@guarded
+def case_grammar(p, ctx):
+    from gemseo.core.grammars.factory import GrammarFactory
+
+    tmp = tempfile.mkdtemp(dir=os.environ.get("VERIF_SCRATCH"))
+    try:
+        cls = GRAMMAR_CLASSES[p["cls"] % len(GRAMMAR_CLASSES)]
+        grammar = GrammarFactory().create(cls, name="g")
+        flags: set = set()
+        init = p.get("init", 0)
+        first = [{"op": ["names", "data", "types"][init % 3], "k": init}, {"op": "names", "k": init + 1}]  # never an empty grammar
+        for op in first + list(p["ops"]):
+            r = _call(lambda: _grammar_apply(grammar, op, flags))
+            if r[0] == "raises":
+                ctx.cls(f"grammar_op_raises:{op['op']}:{r[1]}")
+        ctx.cls(f"grammar:{cls}", f"channel:{p['channel']}", *(f"grammar_state:{f}" for f in sorted(flags)))
+        before = plain(grammar_view(grammar, _grammar_probe(grammar)))
+        restored = roundtrip(grammar, p["channel"], p["protocol"], tmp, ctx, action=("noop",))
+        ctx.check(type(restored) is type(grammar) and restored is not grammar, "restored_type", f"restored grammar is a {type(restored).__name__}")
+        d = diff(before, plain(grammar_view(restored, _grammar_probe(restored))))
+        ctx.check(d is None, "grammar_exposed", f"restored {cls} differs from the original: {d}")
+        # independence, then a second generation made from the edited restored grammar
+        snap = plain(grammar_view(grammar, _grammar_probe(grammar)))
+        flags2: set = set()
+        for op in p["second_ops"]:
+            _call(lambda: _grammar_apply(restored, op, flags2))
+        for value in restored.defaults.values():
+            if isinstance(value, np.ndarray) and value.flags.writeable:
+                value += 1.0
+        d = diff(snap, plain(grammar_view(grammar, _grammar_probe(grammar))))
+        ctx.check(d is None, "grammar_independence", f"editing the restored grammar changed the original: {d}")
+        view1 = plain(grammar_view(restored, _grammar_probe(restored)))
+        gen2 = roundtrip(restored, "dumps", p["protocol"], tmp, ctx)
+        d = diff(view1, plain(grammar_view(gen2, _grammar_probe(gen2))))
+        ctx.check(d is None, "second_generation_state", f"{cls} restored, edited, serialised again and restored differs: {d}")
+        if len(grammar) and flags & {"validated", "schema_read", "described", "restricted", "renamed"}:
+            ctx.nontriv(("grammar", p))
+            ctx.cls("nontrivial")
+        ctx.sample({"oracle": "grammar", "class": cls, "ops": [o["op"] for o in p["ops"]], "channel": p["channel"]})
+    finally:
+        shutil.rmtree(tmp, ignore_errors=True)
+
+
+# ======================================================================================
+# HDF5: the file changes between saving and loading
+# ======================================================================================
+HDF5_RECIPES = ["AnalyticDiscipline", "Sellar", "LinearCombination", "MDOChain", "AutoPyDiscipline", "Splitter"]
+
+
+@st.composite
+def hdf5_file_cases(draw):
+    name = draw(st.sampled_from(HDF5_RECIPES))
+    return {
+        "recipe": name,
+        "args": draw(R.RECIPES[name].args),
+        "gi": 0,
+        "cache": "HDF5",
+        "cache_tol": 0.0,
+        "cache_name": draw(st.sampled_from(["", "my cache"])),
+        "seed": 0,
+        "before": draw(st.lists(st.fixed_dictionaries({"u": _u(), "lin": st.booleans()}), min_size=1, max_size=4, unique_by=lambda c: tuple(c["u"]))),
+        "revisit": draw(st.one_of(st.none(), st.integers(0, 3))),
+        "change": draw(st.sampled_from(["clear_then_fewer", "clear_then_fewer", "clear_then_same_or_more", "more", "nothing"])),
+        "after": draw(st.lists(st.fixed_dictionaries({"u": _u(), "lin": st.booleans()}), min_size=1, max_size=4, unique_by=lambda c: tuple(c["u"]))),
+        "channel": draw(st.sampled_from(["dumps", "file"])),
+        "protocol": draw(st.sampled_from([2, 4, 5])),
+    }
+
+
+def _valid_cache_view(cache, ctx, who: str) -> dict:
+    """A cache must be a consistent view of its entries: last entry among them, names and sizes from it, exportable."""
+    entries = [{"in": plain(dict(e.inputs)), "out": plain(dict(e.outputs))} for e in cache.get_all_entries()] if len(cache) else []
+    ctx.check(len(entries) == len(cache), "hdf5_view_of_file", f"{who}: len() is {len(cache)} but {len(entries)} entries are served")
+    if entries:
+        last = cache.last_entry
+        last_plain = {"in": plain(dict(last.inputs)), "out": plain(dict(last.outputs))}
+        ctx.check(bool(last.inputs) and any(diff(last_plain, e) is None for e in entries), "hdf5_view_of_file",
+                  f"{who}: the cache holds {len(entries)} entries but its last entry {'is empty' if not last.inputs else 'is none of them'}")
+        ctx.check(cache.input_names == sorted(last.inputs) and cache.output_names == sorted(last.outputs), "hdf5_view_of_file",
+                  f"{who}: input / output names {cache.input_names} / {cache.output_names} are not those of the last entry")
+        sizes = cache.names_to_sizes
+        ctx.check(set(sizes) == set(last.inputs) | set(last.outputs), "hdf5_view_of_file", f"{who}: names_to_sizes {sizes} does not cover the last entry")
+        r = _call(lambda: cache.to_dataset())
+        ctx.check(r[0] == "ok" and len(r[1]) == len(entries), "hdf5_view_of_file",
+                  f"{who}: to_dataset() {'raises ' + str(r[1]) if r[0] != 'ok' else 'has ' + str(len(r[1])) + ' rows for ' + str(len(entries)) + ' entries'}")
+    return {"entries": entries}
+
+
+@guarded
+def case_hdf5_file(p, ctx):
+    from gemseo.utils.pickle import from_pickle
+    from gemseo.utils.pickle import to_pickle
+
+    tmp = tempfile.mkdtemp(dir=os.environ.get("VERIF_SCRATCH"))
+    LOOSE_DTYPE[0] = True
+    try:
+        life = Life(p, "HDF5", tmp)
+        if life.cache_kind != "HDF5":
+            return
+        orig = life.obj
+        rec = life.rec
+
+        def use(obj, call):
+            data = life.point(call["u"])
+            if call["lin"] and rec.linearizable:
+                return _call(lambda: life.linearize(obj, _cp(data), "all", 0))
+            return _call(lambda: obj.execute(_cp(data)))
+
+        for call in p["before"]:
+            use(orig, call)
+        if p["revisit"] is not None:
+            use(orig, {**p["before"][p["revisit"] % len(p["before"])], "lin": True})  # the last accessed entry is an older one
+        n_before = len(orig.cache)
+        # ---- save
+        if p["channel"] == "dumps":
+            blob = pickle.dumps(orig, protocol=p["protocol"])
+        else:
+            to_pickle(orig, os.path.join(tmp, "obj.pkl"))
+        # ---- the original goes on with the same file / node
+        change = p["change"]
+        after = list(p["after"])
+        if change.startswith("clear") and n_before:
+            orig.cache.clear()
+            if change == "clear_then_fewer":
+                after = after[: max(1, min(len(after), n_before - 1))] if n_before > 1 else []
+        elif change == "nothing":
+            after = []
+        for call in after:
+            use(orig, call)
+        n_now = len(orig.cache)
+        ctx.cls(f"hdf5_file:{change}", f"hdf5_file:entries_{'fewer' if n_now < n_before else 'more' if n_now > n_before else 'as_many'}_at_load")
+        # ---- load
+        restored = pickle.loads(blob) if p["channel"] == "dumps" else from_pickle(os.path.join(tmp, "obj.pkl"))
+        rc, oc = restored.cache, orig.cache
+        ctx.check(type(rc).__name__ == "HDF5Cache" and str(rc.hdf_file.hdf_file_path) == str(oc.hdf_file.hdf_file_path)
+                  and rc.hdf_node_path == oc.hdf_node_path and rc.name == oc.name and rc.tolerance == oc.tolerance,
+                  "hdf5_attached", "the restored HDF5Cache is not attached to the file / node of the original")
+        view_o = _valid_cache_view(oc, ctx, "original cache")
+        view_r = _valid_cache_view(rc, ctx, "restored cache")
+        ctx.check(len(rc) == n_now, "hdf5_view_of_file", f"the node holds {n_now} entries at load time, the restored cache has {len(rc)}")
+        d = diff(sorted(view_o["entries"], key=repr), sorted(view_r["entries"], key=repr))
+        ctx.check(d is None, "hdf5_view_of_file", f"the restored cache does not serve the entries of the file as it is at load time: {d}")
+        # stored points are hits on the restored discipline and give the stored values
+        stored = after if (change.startswith("clear") and n_before) else list(p["before"]) + after
+        for call in stored[:3]:
+            data = life.point(call["u"])
+            n0 = restored.execution_statistics.n_executions
+            r1 = _call(lambda: plain(dict(orig.execute(_cp(data)))))
+            r2 = _call(lambda: plain(dict(restored.execute(_cp(data)))))
+            ctx.check(r1[0] == r2[0], "hdf5_view_of_file", f"executing a stored point: original {r1[0]}, restored {r2[0]}")
+            if r1[0] == "ok":
+                names = {K(n) for n in orig.io.output_grammar}
+                d = diff({k: v for k, v in r1[1].items() if k in names}, {k: v for k, v in r2[1].items() if k in names})
+                ctx.check(d is None, "hdf5_view_of_file", f"a stored point gives other outputs on the restored discipline: {d}")
+                ctx.check(restored.execution_statistics.n_executions == n0, "hdf5_view_of_file",
+                          "the restored discipline re-ran a point that is stored in the file")
+                ctx.cls("hdf5_file:stored_point_hit")
+        if n_now != n_before or change.startswith("clear"):
+            ctx.nontriv(("hdf5_file", p))
+            ctx.cls("nontrivial")
+        ctx.sample({"oracle": "hdf5_file_changes", "recipe": p["recipe"], "before": len(p["before"]), "change": change, "after": len(after)})
+    finally:
+        LOOSE_DTYPE[0] = False
+        _forget_hdf5(tmp)
+        shutil.rmtree(tmp, ignore_errors=True)
+
+
 ORACLES = {"discipline": case_discipline, "function": case_function, "space": case_space, "problem": case_problem, "scenario": case_scenario,
-           "cross_process": case_cross}
+           "cross_process": case_cross, "grammar": case_grammar, "hdf5_file_changes": case_hdf5_file}
 
 
 def _factory_coverage(ctx) -> None:
@@ -1816,8 +2081,10 @@ def run(ctx):
     for name, rec in R.RECIPES.items():
         if rec.kind in ("discipline", "mda"):
             ctx.drive("discipline", discipline_cases(name), case_discipline, quick=3 + rec.weight, thorough=12 + 10 * rec.weight)
-    ctx.drive("function", function_cases(), case_function, quick=90, thorough=1000)
-    ctx.drive("space", space_cases(), case_space, quick=45, thorough=500)
+    ctx.drive("function", function_cases(), case_function, quick=70, thorough=1000)
+    ctx.drive("space", space_cases(), case_space, quick=40, thorough=500)
     ctx.drive("problem", problem_cases(), case_problem, quick=32, thorough=300)
     ctx.drive("scenario", scenario_cases(), case_scenario, quick=12, thorough=80)
     ctx.drive("cross_process", cross_cases(), case_cross, quick=3, thorough=10)
+    ctx.drive("grammar", grammar_cases(), case_grammar, quick=60, thorough=1500)
+    ctx.drive("hdf5_file_changes", hdf5_file_cases(), case_hdf5_file, quick=25, thorough=300)
